@@ -20,9 +20,15 @@ import (
 // identical tree in a temp dir (paths compared relative to the temp dir).
 // ---------------------------------------------------------------------------------------
 
-type walkErr struct{ n int }
+// walkErr: an error of the callback's own; it may wrap SkipDir or SkipAll (`%w`), which makes it neither of them:
+// filepath.Walk compares with ==
+type walkErr struct {
+	n    int
+	wrap error
+}
 
 func (e walkErr) Error() string { return fmt.Sprintf("callback error %d", e.n) }
+func (e walkErr) Unwrap() error { return e.wrap }
 
 func c16Stack(name string) (fs afero.Fs, under afero.Fs) {
 	m := afero.NewMemMapFs()
@@ -51,8 +57,12 @@ func c16Plan(toks []string) map[int]error {
 			plan[atoi(p[0])] = filepath.SkipDir
 		} else if p[1] == "a" {
 			plan[atoi(p[0])] = filepath.SkipAll
+		} else if p[1][0] == 'w' { // an error that wraps SkipDir
+			plan[atoi(p[0])] = walkErr{atoi(p[1][1:]), filepath.SkipDir}
+		} else if p[1][0] == 'v' { // an error that wraps SkipAll
+			plan[atoi(p[0])] = walkErr{atoi(p[1][1:]), filepath.SkipAll}
 		} else {
-			plan[atoi(p[0])] = walkErr{atoi(p[1][1:])}
+			plan[atoi(p[0])] = walkErr{atoi(p[1][1:]), nil}
 		}
 	}
 	return plan
@@ -163,7 +173,7 @@ func c16Oracle(c corr.Case, impl []string) (string, int) {
 		case "tree":
 			os.RemoveAll(dir)
 			os.MkdirAll(dir, 0o755)
-			c16Build(&rootedFs{afero.NewOsFs(), dir}, t[1:])
+			c16Build(&rootedFs{afero.NewOsFs(), dir, false}, t[1:])
 		case "walk":
 			plan := c16Plan(t[2:])
 			root := string(corr.UnHex(t[1]))
@@ -206,7 +216,7 @@ func c16Oracle(c corr.Case, impl []string) (string, int) {
 func c16Tree(r *corr.Rand) []string {
 	// names include proper prefixes of each other continued by bytes below and above the separator
 	// ('-', '.', ' ', '!' < '/' < '0', 'b'): the order of joined paths differs from the order of names
-	names := []string{"a", "ab", "b", "c1", "x.go", "y.txt", "zz", "B", "a-b", "a.d", "a b", "a!", "a0"}
+	names := []string{"a", "ab", "b", "c1", "x.go", "y.txt", "zz", "B", "a-b", "a.d", "a b", "a!", "a0", "aa", "aba"}
 	var items []string
 	seen := map[string]bool{}
 	var gen func(dir string, depth int)
@@ -244,7 +254,9 @@ func c16Paths(items []string) (all []string) {
 var c16Patterns = []string{"/r/*", "/r/*/*", "/r/a*", "/r/?", "/r/??", "/r/[a-b]*", "/r/[^a]*", "/r/*/x.go", "/r/*/*.t?t", "/r/a", "/r/nope", "/r/*/[a-c]?",
 	"/r/*/*/*", "/*/a", "/r/[a-c][a-c]", "/r/*.go", "/r/a/*", "/r/x.go/*", "/r/*b*", "/*", "/r/", "/r/*/",
 	// a literal ".." after a wildcard segment: every segment before it is looked up, nothing is resolved lexically
-	"/r/*/../a*", "/r/*/../*/x.go", "/*/../r/*", "/r/*/./*"}
+	"/r/*/../a*", "/r/*/../*/x.go", "/*/../r/*", "/r/*/./*",
+	// one star between literal ends that overlap: "a" must not match a*a, "ab" not ab*b, "aba" not aba*ba
+	"/r/a*a", "/r/ab*b", "/r/*/a*a", "/r/a*ab", "/r/aba*ba", "/r/a*", "/r/*a"}
 
 func c16Random(r *corr.Rand, tier string) []corr.Case {
 	n := 350
@@ -277,7 +289,7 @@ func c16Random(r *corr.Rand, tier string) []corr.Case {
 			for j := 0; j < rr.Intn(4); j++ {
 				act := corr.Pick(rr, []string{"s", "s", "a"})
 				if rr.Chance(35) {
-					act = fmt.Sprintf("e%d", 1+rr.Intn(3))
+					act = fmt.Sprintf("%s%d", corr.Pick(rr, []string{"e", "e", "w", "v"}), 1+rr.Intn(3))
 				}
 				plan += fmt.Sprintf(" %d:%s", rr.Intn(nv+1), act)
 			}
@@ -300,7 +312,7 @@ func c16Exhaustive(tier string) []corr.Case {
 		for _, root := range []string{"/r", "/r/b", "/r/a", "/r/d", "/nope", "/", "/r/./b", "/r//b", "/r/b/.", "/r/b/", "/r/d/../b", "/r/b/y/..", "/r/"} {
 			l := []string{"case " + st, "tree " + strings.Join(items, " "), "walk " + h(root)}
 			for i := 0; i < 10; i++ {
-				for _, a := range []string{"s", "e1", "a"} {
+				for _, a := range []string{"s", "e1", "a", "w3", "v3"} {
 					l = append(l, fmt.Sprintf("walk %s %d:%s", h(root), i, a))
 					for j := i + 1; j < 10; j++ {
 						l = append(l, fmt.Sprintf("walk %s %d:%s %d:s", h(root), i, a, j), fmt.Sprintf("walk %s %d:%s %d:e2", h(root), i, a, j))
@@ -322,7 +334,7 @@ func c16Exhaustive(tier string) []corr.Case {
 		}
 		sort.Strings(pre)
 		l = []string{"case " + st, "tree d:" + h("/r") + " " + strings.Join(pre, " ")}
-		for _, p := range []string{"/r/*/x.go", "/r/a*/x.go", "/r/*/*/x.go", "/r/*/*", "/r/*", "/r/a?b/*", "/r/*/a*/x.go", "/*/*/x.go"} {
+		for _, p := range []string{"/r/*/x.go", "/r/a*/x.go", "/r/*/*/x.go", "/r/*/*", "/r/*", "/r/a?b/*", "/r/*/a*/x.go", "/*/*/x.go", "/r/a*a", "/r/ab*b", "/r/*/a*a", "/r/a*b", "/r/a*-b"} {
 			l = append(l, "glob "+h(p))
 		}
 		cases = append(cases, corr.Case{Lines: l})
